@@ -703,7 +703,16 @@ def equal(a, b):
     if isinstance(a, SeqV) or isinstance(b, SeqV):
         from .seqs import seq_equal
         return seq_equal(a, b)
-    from .values import LitSet
+    from .values import LitSet, MapV, SetV, key_sort
+    if isinstance(a, (MapV, SetV)) or isinstance(b, (MapV, SetV)):
+        # a symbolic dict / set against an EMPTY literal (`unloaded != {}`): equal exactly when nothing is in its domain
+        m, o = (a, b) if isinstance(a, (MapV, SetV)) else (b, a)
+        empty = (type(o).__name__ == "ConstDict" and not o.entries) or (isinstance(o, LitSet) and not o.items)
+        if empty:
+            from .values import fresh_name
+            k = z3.Const(fresh_name("ek"), key_sort(m.key))
+            return z3.Not(z3.Exists([k], z3.Select(m.dom, k)))
+        raise EngineError("equality of symbolic dicts / sets (only comparison with an empty literal is modelled)")
     if isinstance(a, LitSet) and isinstance(b, LitSet):
         if not any(is_z3(x) for x in a.items + b.items):
             univ = []
